@@ -867,6 +867,15 @@ class ExprMixin:
         if isinstance(obj, TimeDelta):
             if attr == "total_seconds":
                 return MethodRef(obj, attr)
+            if attr in ("days", "seconds", "microseconds"):
+                # normalised representation: days = floor(s / 86400), 0 <= seconds < 86400, 0 <= microseconds < 10**6
+                whole = z3.ToInt(obj.s)
+                days = whole / 86400  # z3 integer division floors for a positive divisor
+                if attr == "days":
+                    return wrap_int(days)
+                if attr == "seconds":
+                    return wrap_int(whole - days * 86400)
+                return wrap_int(z3.ToInt((obj.s - z3.ToReal(whole)) * 1000000))
         if isinstance(obj, (DequeV, EnumMap, EnumSet, dict, list, str, LockV)) or (isinstance(obj, Sym) and obj.ty == "str"):
             return MethodRef(obj, attr)
         if isinstance(obj, EnvFn):
